@@ -104,6 +104,28 @@ pub fn growth_child() {
             }
         }
     }
+    // single characters (they travel through `write_char`) of every encoded width against nearly-full buffers:
+    // Rust-owned buffers of every small capacity, and fixed caller buffers with guard bytes behind them
+    let chars = ["x", "é", "€", "𝄞"];
+    for cap in 0usize..=12 {
+        for fill in ["", "a", "ab", "abc", "abcdefg"] {
+            for c1 in chars {
+                for c2 in chars {
+                    println!("case cap={cap} pieces={fill:?},{c1:?},{c2:?}");
+                    for case in [
+                        crate::c12::Case::Rust { cap, chunks: vec![fill.to_string(), c1.to_string(), c2.to_string()] },
+                        crate::c12::Case::Simple { size: cap + 1, chunks: vec![fill.to_string(), c1.to_string(), c2.to_string()] },
+                        crate::c12::Case::Foreign { cap, init: String::new(), chunks: vec![fill.to_string(), c1.to_string(), c2.to_string()], answers: vec![Some(0), None] },
+                    ] {
+                        let (_line, fails) = crate::c12::run_real(&case);
+                        for (what, detail) in fails {
+                            println!("fail {what} {detail}");
+                        }
+                    }
+                }
+            }
+        }
+    }
 }
 
 /// Results and options whose two arms differ in whether they own anything: only one arm has drop glue. Whatever the
@@ -334,6 +356,72 @@ fn cpp_delete_fragment(rep: &mut Report) {
     }
 }
 
+
+/// Owned buffers that cross as plain memory (no `Drop` of their own to log): every conversion between the owned
+/// slice wrappers and `Box<[T]>` / `Box<str>`, and every way of letting go of them, releases each allocation exactly
+/// once.  Counted by the harness's own allocator while the conversions run.
+fn owned_buffer_probe(rep: &mut Report) {
+    use diplomat_runtime::{DiplomatOwnedSlice, DiplomatOwnedStr16Slice, DiplomatOwnedStrSlice, DiplomatOwnedUTF8StrSlice};
+    let mut run = |name: &str, f: &dyn Fn(), rep: &mut Report| {
+        let o = crate::alloctrack::tracked(f);
+        rep.oracle_runs += 1;
+        rep.count("probe:owned-buffers");
+        if o.double_frees > 0 || o.leaked > 0 {
+            rep.oracle_fail(&format!("(c03 probe owned-buffer {name})"), "an owned buffer is not released exactly once", json!({"released_twice": o.double_frees, "never_released": o.leaked}));
+        }
+        if o.overflow > 0 { rep.notes.push(format!("owned-buffer probe {name}: tracking table overflow")); }
+    };
+    for text in ["", "a", "héllo wörld", "a string long enough not to fit any small buffer at all, 0123456789"] {
+        let t = text.to_string();
+        run(&format!("Box<str> -> utf8 slice -> Box<str> len={}", t.len()), &|| {
+            let b: Box<str> = t.clone().into_boxed_str();
+            let s: DiplomatOwnedUTF8StrSlice = b.into();
+            let back: Box<str> = s.into();
+            assert_eq!(&*back, t.as_str());
+            drop(back);
+        }, rep);
+        run(&format!("Box<str> -> utf8 slice dropped len={}", t.len()), &|| {
+            let s: DiplomatOwnedUTF8StrSlice = t.clone().into_boxed_str().into();
+            assert_eq!(&*s, t.as_str());
+            drop(s);
+        }, rep);
+        run(&format!("Box<[u8]> -> str slice -> Box<[u8]> len={}", t.len()), &|| {
+            let s: DiplomatOwnedStrSlice = t.clone().into_bytes().into_boxed_slice().into();
+            let back: Box<[u8]> = s.into();
+            assert_eq!(&*back, t.as_bytes());
+        }, rep);
+        run(&format!("Box<[u16]> -> str16 slice -> Box<[u16]> len={}", t.len()), &|| {
+            let u: Vec<u16> = t.encode_utf16().collect();
+            let s: DiplomatOwnedStr16Slice = u.clone().into_boxed_slice().into();
+            let back: Box<[u16]> = s.into();
+            assert_eq!(&*back, &u[..]);
+        }, rep);
+        run(&format!("Box<[u16]> -> str16 slice dropped len={}", t.len()), &|| {
+            let s: DiplomatOwnedStr16Slice = t.encode_utf16().collect::<Vec<u16>>().into_boxed_slice().into();
+            drop(s);
+        }, rep);
+    }
+    for n in [0usize, 1, 5, 300] {
+        run(&format!("Box<[f64]> -> owned slice -> Box<[f64]> len={n}"), &|| {
+            let v: Vec<f64> = (0..n).map(|i| i as f64).collect();
+            let s: DiplomatOwnedSlice<f64> = v.clone().into_boxed_slice().into();
+            let back: Box<[f64]> = s.into();
+            assert_eq!(&*back, &v[..]);
+        }, rep);
+        run(&format!("Box<[String]> -> owned slice dropped len={n}"), &|| {
+            let v: Vec<String> = (0..n).map(|i| format!("element number {i} with its own allocation")).collect();
+            let s: DiplomatOwnedSlice<String> = v.into_boxed_slice().into();
+            drop(s);
+        }, rep);
+        run(&format!("Box<[String]> -> owned slice -> Box<[String]> len={n}"), &|| {
+            let v: Vec<String> = (0..n).map(|i| format!("element number {i} with its own allocation")).collect();
+            let s: DiplomatOwnedSlice<String> = v.into_boxed_slice().into();
+            let back: Box<[String]> = s.into();
+            assert_eq!(back.len(), n);
+        }, rep);
+    }
+}
+
 pub fn main(args: &[String]) {
     let a = util::parse_args(args);
     let mut rep = Report::new("C03");
@@ -411,5 +499,6 @@ pub fn main(args: &[String]) {
     crate::c02::special_methods_probe(&mut rep);
     write_growth_probe(&mut rep);
     asymmetric_payload_probe(&mut rep);
+    owned_buffer_probe(&mut rep);
     rep.print();
 }
